@@ -314,7 +314,22 @@ pub fn prove_line(line: &str) -> String {
     let cb = ProgCircuit { src: parts[2].trim().to_string() };
     let (prover, verifier) = match Compiler::compile_with_circuit(&pp, &label, &ca) {
         Ok(x) => x,
-        Err(e) => return format!("err:compile:{:?}", e).split('(').next().unwrap().to_string(),
+        Err(e) => {
+            let base = format!("err:compile:{:?}", e).split('(').next().unwrap().to_string();
+            if routes {
+                // both routes must fail for the same capacities
+                crate::prog::DEFAULT_SRC.with(|s| *s.borrow_mut() = parts[1].trim().to_string());
+                let cmp = match <ProgCircuit as Circuit>::compress() {
+                    Ok(bytes) => match Compiler::compile_with_compressed(&pp, &label, &bytes) {
+                        Ok(_) => "succeeded",
+                        Err(_) => "ok",
+                    },
+                    Err(_) => "ok",
+                };
+                return format!("{} cmp={}", base, cmp);
+            }
+            return base;
+        }
     };
     let vb = verifier.to_bytes();
     let mut hsh = Hasher::new();
@@ -368,4 +383,60 @@ pub fn prove_line(line: &str) -> String {
         Err(Error::UnsupportedProvingVersion) => format!("err:UnsupportedProvingVersion vh={}", vh),
         Err(e) => format!("err:other:{:?} vh={}", e, vh).replace(' ', "_"),
     }
+}
+
+/// `cmpsnap <prog>`: compress the program's circuit, decompress it again, print the shape summary
+pub fn cmpsnap_line(src: &str) -> String {
+    crate::prog::DEFAULT_SRC.with(|s| *s.borrow_mut() = src.trim().to_string());
+    let mut probe = Composer::initialized();
+    let r = crate::prog::run_prog(&mut probe, src);
+    if r.bad.is_some() {
+        return "bad-op".into();
+    }
+    let bytes = match <ProgCircuit as Circuit>::compress() {
+        Ok(b) => b,
+        Err(e) => return format!("err:{:?}", e),
+    };
+    match Composer::verif_from_compressed(&bytes, probe.constraints()) {
+        Ok(c) => {
+            let r = crate::prog::run_prog(&mut Composer::initialized(), "");
+            crate::prog::summary(&c, &r)
+        }
+        Err(e) => format!("err:{:?}", e),
+    }
+}
+
+/// `cmpdec <max_constraints> <hex>`: decode an arbitrary payload; reports the peak allocation
+pub fn cmpdec_line(rest: &str) -> String {
+    let t: Vec<&str> = rest.split_whitespace().collect();
+    if t.len() != 2 {
+        return "bad-request".into();
+    }
+    let (max, bytes) = match (t[0].parse::<usize>().ok(), hex_bytes(t[1])) {
+        (Some(m), Some(b)) => (m, b),
+        _ => return "bad-request".into(),
+    };
+    let (res, peak) = crate::peak_during(|| Composer::verif_from_compressed(&bytes, max).map(|c| (c.constraints(), c.verif_witness_count())));
+    match res {
+        Ok((g, w)) => format!("ok gates={} wit={} peak={}", g, w, peak),
+        Err(e) => format!("err:{:?} peak={}", e, peak).replace(' ', "_").replace("_peak", " peak"),
+    }
+}
+
+/// `maxcons <deg> <d1> <d2> <d3>`: Compiler::max_constraints of a parameter set of the given degree
+pub fn maxcons_line(rest: &str) -> String {
+    let t: Vec<&str> = rest.split_whitespace().collect();
+    if t.len() != 4 {
+        return "bad-request".into();
+    }
+    match crate::kzg::setup(t[0], &t[1..4]) {
+        Some(Ok(pp)) => format!("{} {}", pp.max_degree(), dusk_plonk::verif::max_constraints(&pp)),
+        _ => "err".into(),
+    }
+}
+
+/// compressed bytes of a program's circuit (hex), for the payload mutators
+pub fn compress_hex(src: &str) -> Option<String> {
+    crate::prog::DEFAULT_SRC.with(|s| *s.borrow_mut() = src.trim().to_string());
+    <ProgCircuit as Circuit>::compress().ok().map(|b| bytes_hex(&b))
 }
